@@ -33,6 +33,7 @@ type c05Shape struct {
 	name    string
 	deflate bool
 	build   func(masked bool) []wsref.Frame
+	sparse  bool // large frames: cut offsets only around frame boundaries / headers and a few inside payloads
 }
 
 func c05Shapes(tier string) []c05Shape {
@@ -41,33 +42,40 @@ func c05Shapes(tier string) []c05Shape {
 		return wsref.Frame{Fin: fin, Opcode: op, Rsv1: rsv1, Masked: masked, Key: k, Payload: p}
 	}
 	shapes := []c05Shape{
-		{"single-10", false, func(m bool) []wsref.Frame { return []wsref.Frame{fr(m, 2, true, false, Pattern(0, 10))} }},
-		{"single-300", false, func(m bool) []wsref.Frame { return []wsref.Frame{fr(m, 2, true, false, Pattern(0, 300))} }},
-		{"frag-300+5", false, func(m bool) []wsref.Frame {
+		{name: "single-10", deflate: false, build: func(m bool) []wsref.Frame { return []wsref.Frame{fr(m, 2, true, false, Pattern(0, 10))} }},
+		{name: "single-300", deflate: false, build: func(m bool) []wsref.Frame { return []wsref.Frame{fr(m, 2, true, false, Pattern(0, 300))} }},
+		{name: "frag-300+5", deflate: false, build: func(m bool) []wsref.Frame {
 			return []wsref.Frame{fr(m, 1, false, false, Pattern(4, 300)), fr(m, 0, true, false, Pattern(4, 5))}
 		}},
-		{"frag-3+ping+0+4", false, func(m bool) []wsref.Frame {
+		{name: "frag-3+ping+0+4", deflate: false, build: func(m bool) []wsref.Frame {
 			return []wsref.Frame{fr(m, 2, false, false, Pattern(0, 3)), fr(m, 9, true, false, []byte("pi")), fr(m, 0, false, false, nil), fr(m, 0, true, false, Pattern(3, 4))}
 		}},
-		{"two-msgs-130+126", false, func(m bool) []wsref.Frame {
+		{name: "two-msgs-130+126", deflate: false, build: func(m bool) []wsref.Frame {
 			return []wsref.Frame{fr(m, 1, true, false, Pattern(4, 130)), fr(m, 2, true, false, Pattern(0, 126))}
 		}},
-		{"deflate-frag", true, func(m bool) []wsref.Frame {
+		{name: "deflate-frag", deflate: true, build: func(m bool) []wsref.Frame {
 			w := wsref.Deflate(Pattern(0, 200), 1)
 			return []wsref.Frame{fr(m, 2, false, true, w[:len(w)/2]), fr(m, 0, true, false, w[len(w)/2:]), fr(m, 1, true, false, []byte("plain"))}
 		}},
-		{"deflate-stored-300", true, func(m bool) []wsref.Frame {
+		{name: "deflate-stored-300", deflate: true, build: func(m bool) []wsref.Frame {
 			w := wsref.Deflate(Pattern(3, 300), 0)
 			return []wsref.Frame{fr(m, 2, true, true, w)}
 		}},
 	}
+	// frames in the 16-bit and 64-bit length forms (cuts inside the extended length and the mask key)
+	shapes = append(shapes,
+		c05Shape{name: "single-65536", sparse: true, build: func(m bool) []wsref.Frame { return []wsref.Frame{fr(m, 2, true, false, Pattern(0, 65536))} }},
+		c05Shape{name: "frag-5+66000", sparse: true, build: func(m bool) []wsref.Frame {
+			return []wsref.Frame{fr(m, 1, false, false, Pattern(4, 5)), fr(m, 0, true, false, Pattern(4, 66000)), fr(m, 1, true, false, []byte("tail"))}
+		}},
+	)
 	if tier == "thorough" {
 		shapes = append(shapes,
-			c05Shape{"frag-125+125+125", false, func(m bool) []wsref.Frame {
+			c05Shape{name: "frag-125+125+125", deflate: false, build: func(m bool) []wsref.Frame {
 				return []wsref.Frame{fr(m, 2, false, false, Pattern(0, 125)), fr(m, 0, false, false, Pattern(1, 125)), fr(m, 0, true, false, Pattern(2, 125))}
 			}},
-			c05Shape{"single-0", false, func(m bool) []wsref.Frame { return []wsref.Frame{fr(m, 1, true, false, nil)} }},
-			c05Shape{"three-msgs", false, func(m bool) []wsref.Frame {
+			c05Shape{name: "single-0", deflate: false, build: func(m bool) []wsref.Frame { return []wsref.Frame{fr(m, 1, true, false, nil)} }},
+			c05Shape{name: "three-msgs", deflate: false, build: func(m bool) []wsref.Frame {
 				return []wsref.Frame{fr(m, 1, true, false, []byte("a")), fr(m, 10, true, false, nil), fr(m, 2, false, false, Pattern(0, 256)), fr(m, 0, true, false, Pattern(0, 1)), fr(m, 1, true, false, []byte("zz"))}
 			}},
 		)
@@ -121,7 +129,28 @@ func c05Body(x *explore.Ctx, sh c05Shape, readerIsServer bool, rbs, fi int, tier
 		panic("c05: generator produced a non-conformant stream: " + err.Error())
 	}
 	msgs := full.Data()
-	cut := x.Pick(len(stream)+1, "cut")
+	var cut int
+	if sh.sparse {
+		seen := map[int]bool{}
+		var cuts []int
+		add := func(o int) {
+			if o >= 0 && o <= len(stream) && !seen[o] {
+				seen[o] = true
+				cuts = append(cuts, o)
+			}
+		}
+		for _, f := range full.Frames {
+			for d := 0; d <= 16; d++ {
+				add(f.Off + d)
+			}
+			add((f.Off + f.End) / 2)
+			add(f.End - 1)
+			add(f.End)
+		}
+		cut = cuts[x.Pick(len(cuts), "cut")]
+	} else {
+		cut = x.Pick(len(stream)+1, "cut")
+	}
 	chunking := x.Pick(3, "chunking")
 	prog := x.Pick(4, "readprog") // 0 ReadMessage, 1 NextReader+Read, 2 NextReader + read one byte, then abandon, 3 JoinMessages
 	rsize := 4096
